@@ -11,7 +11,7 @@ LEVEL_TEXT = ("Bounded verification by symbolic execution of the real assembly c
               "every multiset and every argument order up to m modules is covered by one query family): on every feasible path "
               "the outcome class, exception attributes, product sequence and UnusedModules payload equal those of a 20-line "
               "reference walk, and a rotated/reversed argument list gives the same outcome.  Bounded claim.")
-LEVEL_NOTE = ("Bounds: m<=4 modules quick / m<=5 thorough; overhang length 2 (and 4 in thorough, 1 and 3 for m<=3); fragments are "
+LEVEL_NOTE = ("Bounds: m<=4 modules quick / m<=5 thorough; overhang length 2 (and 4 in thorough, 1 and 3 for m<=3); also over mixed-case letters and with all records sharing one id; fragments are "
               "concrete marker words prefixed by the symbolic overhang. That the real module/vector classes deliver such "
               "overhang/fragment values from records is C04's conclusion. A palindromic start overhang counts as 'reverse-"
               "complements a start overhang' (the reading under which the code is right). Trusted: z3, CPython, symx models.")
